@@ -22,6 +22,8 @@ def patterns(alpha, maxlen, minlen=0):
 def text_alpha_for(p, mode):
     if mode == 'full':
         return SIGMA
+    if mode == 'other':
+        return ['-', '/', ',', '#', ' ', 'a']
     if mode == 'astral':
         return ['\U0001F600', 'a', 'b']
     syms = []
@@ -136,6 +138,9 @@ def build(tier):
     astral = ['\U0001F600', 'a', '%', '_']
     plans.append(('py', 'astral', list(patterns(astral, 3)), 3))
     plans.append(('js', 'astral', list(patterns(astral, 3)), 3))
+    other = ['-', '/', ',', '#', ' ', '%', '_', 'a']
+    plans.append(('py', 'other', list(patterns(other, 3)), 3))
+    plans.append(('js', 'other', list(patterns(other, 3)), 3))
     shards = []
     for plan in plans:
         lang, mode, pats, tmax = plan[:4]
